@@ -947,12 +947,31 @@ shift(bitint383_t cand[static 3U], const unsigned int y, echs_shift_t sh)
 }
 
 
+static echs_instant_t
+until_in_scale(echs_instant_t until, echs_scale_t sca)
+{
+/* UNTIL is given in gregorian terms, the candidates below are built in
+ * the rule's scale, express UNTIL in that scale so the two compare */
+	echs_instant_t res;
+
+	if (LIKELY(sca == SCALE_GREGORIAN) || echs_max_instant_p(until)) {
+		return until;
+	}
+	res = echs_instant_rescale(until, sca);
+	if (UNLIKELY(echs_nul_instant_p(res))) {
+		/* not covered by the scale, the scale's end will stop us */
+		return until;
+	}
+	return echs_instant_detach_scale(res);
+}
+
 size_t
 rrul_fill_yly(echs_instant_t *restrict tgt, size_t nti, rrulsp_t rr)
 {
 	const echs_scale_t srcsca = rr->scale;
 	const echs_instant_t protr = echs_instant_rescale(*tgt, srcsca);
 	const echs_instant_t proto = echs_instant_detach_scale(protr);
+	const echs_instant_t until = until_in_scale(rr->until, srcsca);
 	unsigned int y = proto.y;
 	/* unrolled month bui31 bitset */
 	unsigned int m[12U];
@@ -1103,7 +1122,7 @@ rrul_fill_yly(echs_instant_t *restrict tgt, size_t nti, rrulsp_t rr)
 						.ms = proto.ms,
 					};
 
-					if (UNLIKELY(echs_instant_lt_p(rr->until, x))) {
+					if (UNLIKELY(echs_instant_lt_p(until, x))) {
 						goto fin;
 					}
 					if (UNLIKELY(echs_instant_lt_p(x, proto))) {
@@ -1129,6 +1148,7 @@ rrul_fill_mly(echs_instant_t *restrict tgt, size_t nti, rrulsp_t rr)
 	const echs_scale_t srcsca = rr->scale;
 	const echs_instant_t protr = echs_instant_rescale(*tgt, srcsca);
 	const echs_instant_t proto = echs_instant_detach_scale(protr);
+	const echs_instant_t until = until_in_scale(rr->until, srcsca);
 	unsigned int y = proto.y;
 	int m = proto.m;
 	/* unrolled day bi31, we use 2 * 31 because by monthdays can
@@ -1275,7 +1295,7 @@ rrul_fill_mly(echs_instant_t *restrict tgt, size_t nti, rrulsp_t rr)
 						.ms = proto.ms,
 					};
 
-					if (UNLIKELY(echs_instant_lt_p(rr->until, x))) {
+					if (UNLIKELY(echs_instant_lt_p(until, x))) {
 						goto fin;
 					}
 					if (UNLIKELY(echs_instant_lt_p(x, proto))) {
@@ -1301,6 +1321,7 @@ rrul_fill_wly(echs_instant_t *restrict tgt, size_t nti, rrulsp_t rr)
 	const echs_scale_t srcsca = rr->scale;
 	const echs_instant_t protr = echs_instant_rescale(*tgt, srcsca);
 	const echs_instant_t proto = echs_instant_detach_scale(protr);
+	const echs_instant_t until = until_in_scale(rr->until, srcsca);
 	unsigned int y = proto.y;
 	unsigned int m = proto.m;
 	unsigned int d = proto.d;
@@ -1430,7 +1451,7 @@ rrul_fill_wly(echs_instant_t *restrict tgt, size_t nti, rrulsp_t rr)
 				if (UNLIKELY(echs_instant_lt_p(x, proto))) {
 					continue;
 				}
-				if (UNLIKELY(echs_instant_lt_p(rr->until, x))) {
+				if (UNLIKELY(echs_instant_lt_p(until, x))) {
 					goto fin;
 				} else if (!(m_mask & (1U << this_m))) {
 					/* skip the whole month */
@@ -1456,6 +1477,7 @@ rrul_fill_dly(echs_instant_t *restrict tgt, size_t nti, rrulsp_t rr)
 	const echs_scale_t srcsca = rr->scale;
 	const echs_instant_t protr = echs_instant_rescale(*tgt, srcsca);
 	const echs_instant_t proto = echs_instant_detach_scale(protr);
+	const echs_instant_t until = until_in_scale(rr->until, srcsca);
 	unsigned int y = proto.y;
 	unsigned int m = proto.m;
 	unsigned int d = proto.d;
@@ -1586,7 +1608,7 @@ rrul_fill_dly(echs_instant_t *restrict tgt, size_t nti, rrulsp_t rr)
 			};
 			if (UNLIKELY(echs_instant_lt_p(x, proto))) {
 				continue;
-			} else if (UNLIKELY(echs_instant_lt_p(rr->until, x))) {
+			} else if (UNLIKELY(echs_instant_lt_p(until, x))) {
 				goto fin;
 			}
 			/* attach scale and convert back to greg */
